@@ -352,12 +352,14 @@ def map_iter_next(c):
     if isinstance(v, Iter) and v.kind == "mapk" and isinstance(v.items, Struct):
         idx = sorted(v.items.f)
         if not idx:
+            c.st.cells["ghost:listed"] = Num(Lin.const(0))
             return [(c.st, none)]
         first = v.items.f[idx[0]]
         rest = Iter(Lin.const(len(idx) - 1), False, "mapk", None, Struct({i: v.items.f[i] for i in idx[1:]}, tag="elems"))
         if isinstance(c.args[0], Ref):
             c.it.store(c.st, c.args[0].cell, c.args[0].path, rest)
         event(c.st, "next", idx[0])
+        c.st.cells["ghost:listed"] = Num(Lin.const(1))
         return [(c.st, Enum(OPTION, {1: Struct({0: first})}))]
     if isinstance(v, Iter) and isinstance(v.items, V):
         return [(c.st, none), (c.st.copy(), Enum(OPTION, {1: Struct({0: v.items})}))]
@@ -700,10 +702,12 @@ def listed_next(c):
         return c.it.models.lookup_after(c.name, listed_next)(c)
     idx = sorted(v.items.f)
     if not idx:
+        c.st.cells["ghost:listed"] = Num(Lin.const(0))
         return [(c.st, Enum(OPTION, {0: Struct()}))]
     rest = Iter(Lin.const(len(idx) - 1), False, v.kind, None, Struct({i: v.items.f[i] for i in idx[1:]}, tag="elems"))
     c.it.store(c.st, recv.cell, recv.path, rest)
     event(c.st, "next", idx[0])
+    c.st.cells["ghost:listed"] = Num(Lin.const(1))
     return [(c.st, Enum(OPTION, {1: Struct({0: v.items.f[idx[0]]})}))]
 
 
